@@ -145,6 +145,7 @@ def run(prog: Program) -> Results:
     r3 = res.rule("R-C10-3", "bounded resolution: every recursive re-entry carries the visited sets and is dominated by a guarded "
                   "insertion, or passes a strictly shorter chain; the resolver never re-enters through Identifier.value", floor=4)
     rec_sites = []
+    _marker_seen: set = set()
     for g in [ri] + list(ri.nested.values()):
         for c in walk_no_nested(g.node):
             if isinstance(c, ast.Call) and isinstance(c.func, ast.Name) and c.func.id == "_resolve_identifier":
@@ -166,6 +167,27 @@ def run(prog: Program) -> Results:
         for a in adds:
             setname = norm(a.ast.value.func.value)
             member = norm(a.ast.value.args[0])
+            # the marker identifies a document object (the binding / the inherit clause), of which there are finitely many; a
+            # component taken from the scope chain — whose scopes are created afresh while `inherit (src) …` is followed — makes
+            # every visit look new, and a cycle is never recognised
+            mexpr = a.ast.value.args[0]
+            if isinstance(mexpr, ast.Name):
+                _ds = [d for d in walk_no_nested(g.node) if isinstance(d, ast.Assign) and len(d.targets) == 1 and norm(d.targets[0]) == mexpr.id]
+                if len(_ds) == 1:
+                    mexpr = _ds[0].value
+            chainish = set(g.params()[1:]) if g is not ri else {ri.params()[1]}
+            chainish |= {norm(d.targets[0]) for d in walk_no_nested(g.node) if isinstance(d, ast.Assign) and isinstance(d.targets[0], ast.Name)
+                         and any(isinstance(x, ast.Name) and x.id in chainish for x in ast.walk(d.value))}
+            dep = sorted({x.id for x in ast.walk(mexpr) if isinstance(x, ast.Name) and x.id in chainish})
+            if (g.key, setname) not in _marker_seen:
+                _marker_seen.add((g.key, setname))
+                r3.instances += 1
+                r3.ob(not dep, {"site": g.key, "visited_set": setname, "marker": norm(mexpr)[:60]})
+                if dep:
+                    res.add("R-C10-3", (g.key, "cycle marker depends on the scope chain", setname), g.loc(a.ast),
+                            f"{g.key}: the marker `{norm(mexpr)[:60]}` put into `{setname}` depends on `{dep[0]}`: following `inherit (src) …;` "
+                            f"wraps the source in a new Scope on every visit, so a cycle through it never repeats a marker and the "
+                            f"resolver recurses until RecursionError instead of raising ResolutionError")
             tests = [t for t in gcfg.nodes if t.kind == "test" and norm(t.ast) == f"{member} in {setname}"]
             raising = [t for t in tests if any(s.kind == "raise" and exc_name(s.ast.exc) == "ResolutionError" for l, s in t.succ if l is True)]
             if raising and gcfg.all_paths_pass(a, cut_edges=[(t, False) for t in raising]) and gcfg.all_paths_pass(node, cut_nodes=[a]):
